@@ -13,7 +13,7 @@ import (
 func init() {
 	register("C14", ruleC14)
 	register("C11", ruleC14_6shared)
-	register("C13", ruleC14_6shared, ruleC11_6)
+	register("C13", ruleC14_6shared, ruleC11_6, func(c *Ctx) { only(c, ruleC14, "C14.1") })
 }
 
 func ruleC14(c *Ctx) {
@@ -231,6 +231,30 @@ func ruleC14(c *Ctx) {
 			detail = fmt.Sprintf("loop trip=%d black=%v guard=%v same-entry=%v", trip, black, okGuard, okArg)
 		}
 		R.Check(ok, key+"#palette.sanitised", c.Pos(reset.Site), "the palette handed to Reset is sanitised", detail)
+
+		// the destination is Reset whenever the metadata was accepted: nothing but the presence of a destination (and the
+		// sanitising loop having run to its end) stands between the sanitising pass and Reset - in particular not
+		// whether any instruction bytes follow the metadata
+		if pass != nil {
+			inPass := map[string]bool{}
+			for _, l := range guardLits(pass.Guard) {
+				inPass[l.Key()] = true
+			}
+			extra := ""
+			for _, l := range guardLits(reset.Guard) {
+				switch {
+				case inPass[l.Key()]:
+				case isHeaderCond(pass.Loops[0], l):
+				case strings.Contains(l.Key(), "$param:dst") && strings.Contains(l.Key(), "nil") && !strings.Contains(l.Key(), "len("):
+				case strings.Contains(l.Key(), "ValidAlphaPremulColor"):
+					// the join after the replacement inside the loop body
+				default:
+					extra = shortKey(l)
+				}
+			}
+			R.Use("C14.1")
+			R.Check(extra == "", key+"#reset.unconditional", c.Pos(reset.Site), "Reset is delivered whenever the metadata was accepted and a destination is given", "Reset additionally depends on "+extra)
+		}
 
 		// ---- C14.6 nothing else touches the metadata ----
 		R.Rule("C14.6", "what the chunks stored and the options changed is what is handed on: decode itself (outside the chunk decoder and the option calls) writes the metadata only in the sanitising pass - no other store into the viewBox or the palette between the chunks and Reset / the metadata-only return, so the listing, DecodeViewBox and Reset see the same values", 1)
